@@ -327,10 +327,27 @@ def r4_grid_ctor(idx, r):
     r.require(params[: len(fields)] == fields and params[len(fields):] == ["armiObject"], "ctor-order", init,
               msg=f"GridParameters fields {fields} must be StructuredGrid.__init__'s positional parameters in order, followed by armiObject; found {params}")
     red = sg.methods.get("reduce")
-    ret = [n for n in walk_local(red.node) if isinstance(n, ast.Return)]
-    if len(ret) != 1 or not (isinstance(ret[0].value, ast.Call) and call_attr(ret[0].value) == "GridParameters"):
-        raise AnalysisError("StructuredGrid.reduce: single `return GridParameters(...)` expected")
     env = single_assign_env(red.node)
+
+    def built_here(v):
+        """the GridParameters(...) call a returned value stands for, following one local name or one `self.x = GridParameters(...)` store"""
+        if isinstance(v, ast.Name) and v.id in env:
+            v = env[v.id]
+        if isinstance(v, ast.Attribute) and norm(v.value) == "self":
+            st = [s_ for s_ in iter_stores(red.node) if s_.chain == norm(v) and s_.value is not None]
+            v = st[0].value if len(st) == 1 else v
+        return v if isinstance(v, ast.Call) and call_attr(v) == "GridParameters" else None
+    allret = [n for n in walk_local(red.node) if isinstance(n, ast.Return)]
+    fresh = [(n, built_here(n.value)) for n in allret]
+    for n, b in fresh:
+        r.require(b is not None, "reduce:built-from-current-state", red, node=n,
+                  msg=f"`{norm(n)}` hands out a remembered value instead of GridParameters built from the grid's current fields: after the pitch, bounds, symmetry or "
+                      "geometry type change (changePitch, restoreBackup, direct _bounds writes) the database stores the grid as it was when first reduced")
+    good = [(n, b) for n, b in fresh if b is not None]
+    if len(good) != 1:
+        raise AnalysisError("StructuredGrid.reduce: one `GridParameters(...)` construction expected")
+    ret = [ast.Return(value=good[0][1])]
+    ast.copy_location(ret[0], good[0][0])
     src_of = {"unitSteps": "_unitSteps", "bounds": "_bounds", "unitStepLimits": "_unitStepLimits", "offset": "_offset", "geomType": "_geomType", "symmetry": "_symmetry"}
     for i, fname in enumerate(fields):
         a = get_arg(ret[0].value, i, fname)
@@ -582,6 +599,28 @@ def r9_multi_location_bridge(idx, r):
     r.require(bool(tagged), "writer:tags-multi", packs[-1], msg="no location packer distinguishes MultiIndexLocation by a type test any more")
 
 
+_NARROW = __import__("re").compile(r"(float|int|uint)(8|16|32)\b|\bhalf\b|\bsingle\b|['\"][<>=]?[fiu][124]['\"]")
+
+
+def r10_no_narrowing(idx, r):
+    """Layout.writeToDB stores the layout arrays and the grids' steps/bounds as numpy picks them (float64 / int64 / bytes).
+    A narrower numeric dtype in any array construction, cast or create_dataset there makes the stored grid differ from the one in memory."""
+    f = idx.method(LAYOUT + ".Layout", "writeToDB")
+    n = 0
+    for c in iter_calls(f.node):
+        d = dotted(c.func) or ""
+        last = d.rsplit(".", 1)[-1] if d else call_attr(c)
+        if last not in ("array", "asarray", "astype", "create_dataset", "zeros", "empty", "full", "ndarray"):
+            continue
+        n += 1
+        dt = [k.value for k in c.keywords if k.arg == "dtype"] + (list(c.args[:1]) if last == "astype" else []) + (list(c.args[1:2]) if last in ("array", "asarray") else [])
+        bad = [x for x in dt if _NARROW.search(norm(x))]
+        r.require(not bad, f"writeToDB:{n}:{last}:dtype", f, node=c,
+                  msg=f"`{norm(c)[:80]}` narrows what is stored to {norm(bad[0]) if bad else ''}: bounds/steps/indices read back differ from those written (about 1e-7 relative for float32)")
+    if n < 12:
+        raise AnalysisError(f"Layout.writeToDB: only {n} array constructions/datasets found")
+
+
 def run(idx, chk):
     chk.explanation = (
         "C04: Layout.writeToDB/_readLayout, _createLayout/_initComps/_compose, _packLocationsV3/_unpackLocationsV2, "
@@ -610,3 +649,5 @@ def run(idx, chk):
                  necessary="both parameters are stored and both setters run on load: a non-inverse pair changes the group of a loaded block")
     chk.run_rule("R04.9", "indexing a grid with a list yields a MultiIndexLocation on every path (what 'M:n' locations are rebuilt through)", lambda r: r9_multi_location_bridge(idx, r), floor=3,
                  necessary="location kinds written = location kinds rebuilt, also for single-site multi-locations")
+    chk.run_rule("R04.10", "Layout.writeToDB never narrows the numeric type of what it stores", lambda r: r10_no_narrowing(idx, r), floor=12,
+                 necessary="a grid rebuilt from the stored constructor arguments has the same bounds and steps, bit for bit")
